@@ -358,7 +358,17 @@ def items_and_series(ctx: Ctx) -> None:
         d = pdefs[0]
         if isinstance(d, ast.ListComp):
             g0 = d.generators[0]
-            if not (len(d.generators) == 1 and norm(g0.iter) == seq and not g0.ifs and any(isinstance(x, ast.Name) and x.id in _target_names(g0.target) for x in ast.walk(d.elt))):
+            direct = len(d.generators) == 1 and norm(g0.iter) == seq and not g0.ifs and any(isinstance(x, ast.Name) and x.id in _target_names(g0.target) for x in ast.walk(d.elt))
+            # [... X[i] ... for i in range(len(X))], X the sequence or its per-element consolidation: the comprehension spelling of the indexed loop
+            indexed = False
+            it = g0.iter
+            if len(d.generators) == 1 and not g0.ifs and isinstance(it, ast.Call) and call_name(it) == 'range' and len(it.args) == 1 and isinstance(it.args[0], ast.Call) \
+                    and call_name(it.args[0]) == 'len' and it.args[0].args and isinstance(g0.target, ast.Name):
+                x = it.args[0].args[0]
+                srcs = ex.expand(x)
+                from_seq = all(t == seq or (t.startswith('[') and t.endswith(f' in {seq}]')) for t in srcs)
+                indexed = from_seq and f'{norm(x)}[{g0.target.id}]' in norm(d.elt)
+            if not (direct or indexed):
                 problems.append('parts are not taken from every TypeBlocks in sequence order')
         else:
             # [] + append inside `for i in range(len(X))` of X[i], X = the sequence or its per-element consolidation
